@@ -121,7 +121,7 @@ def calibrate(kind):
         d, path, retlog = _paths("cal-" + kind)
         cf = os.path.join(d, "count")
         t0 = time.time()
-        rc = wait(fork_writer(kind, path, retlog, count_file=cf), timeout=25)
+        rc = wait(fork_writer(kind, path, retlog, count_file=cf), timeout=240)     # generous: a loaded machine is not a hung writer
         dur = time.time() - t0
         n, ncommit = (map(int, open(cf).read().split())) if rc == 0 and os.path.exists(cf) else (0, 0)
         try:
